@@ -532,6 +532,8 @@ def make_lsc(spec):
 
 def make_filter(spec, world):
     k = spec["kind"]
+    if spec.get("ord") == "inf":
+        spec = dict(spec, ord=np.inf)
     if k == "demelimit":
         return DemeLimit(spec["limit"])
     if k == "levellimit":
